@@ -17,6 +17,12 @@ use serde_json::{Value, json};
 
 pub const VERIF_DIR: &str = "/verif";
 
+/// Where replays, evidence and the known-findings file live. `/verif`, unless a development bench
+/// (a scratch copy of the harness pointed at a scratch worktree) overrides it.
+pub fn verif_dir() -> std::path::PathBuf {
+    std::env::var_os("VERIF_DIR_OVERRIDE").map(std::path::PathBuf::from).unwrap_or_else(|| std::path::PathBuf::from(VERIF_DIR))
+}
+
 #[derive(Clone, Copy, PartialEq, Eq, Debug)]
 pub enum Tier {
     Quick,
@@ -259,7 +265,7 @@ impl Ctx {
 
     /// Record a violation: write the replay file, print the VIOLATION line.
     pub fn report_violation(&self, label: &str, v: &Violation, case: Value) {
-        let dir = Path::new(VERIF_DIR).join("replays").join(&self.id);
+        let dir = crate::rt::verif_dir().join("replays").join(&self.id);
         let _ = std::fs::create_dir_all(&dir);
         let body = json!({
             "property": self.id,
@@ -524,7 +530,7 @@ impl Ctx {
         if std::env::var("VERIF_NO_REPLAY").is_ok() {
             return out;
         }
-        let dir = Path::new(VERIF_DIR).join("replays").join(&self.id);
+        let dir = crate::rt::verif_dir().join("replays").join(&self.id);
         if let Ok(rd) = std::fs::read_dir(&dir) {
             let all: Vec<PathBuf> = rd.filter_map(|e| e.ok()).map(|e| e.path()).collect();
             let mut files: Vec<PathBuf> = all.iter().filter(|p| p.extension().is_some_and(|x| x == "json")).cloned().collect();
@@ -595,7 +601,7 @@ impl Ctx {
             "wall_s": self.start.elapsed().as_secs_f64(),
             "violations": st.violations.len(),
         });
-        let dir = Path::new(VERIF_DIR).join("evidence");
+        let dir = crate::rt::verif_dir().join("evidence");
         let _ = std::fs::create_dir_all(&dir);
         let path = dir.join(format!("{}.json", self.id));
         std::fs::write(&path, serde_json::to_string_pretty(&ev).unwrap()).expect("write evidence");
@@ -623,7 +629,7 @@ pub fn panic_text(p: &Box<dyn std::any::Any + Send>) -> String {
 }
 
 pub fn load_known() -> Vec<KnownEntry> {
-    let path = Path::new(VERIF_DIR).join("known_findings.txt");
+    let path = crate::rt::verif_dir().join("known_findings.txt");
     let mut out = Vec::new();
     if let Ok(text) = std::fs::read_to_string(path) {
         for line in text.lines() {
